@@ -5,6 +5,8 @@ FS = "frequenz.sdk.timeseries.formula_engine._formula_steps"
 RS = "frequenz.sdk.timeseries._resampling"
 BPM = "frequenz.sdk.timeseries.battery_pool._metric_calculator"
 PVM = "frequenz.sdk.microgrid._power_distributing._component_managers._pv_inverter_manager._pv_inverter_manager:PVManager"
+ACTM = "frequenz.sdk.actor._actor"
+BGSM = "frequenz.sdk.actor._background_service"
 PDA = "frequenz.sdk.microgrid._power_distributing.power_distributing:PowerDistributingActor"
 BMGR = "frequenz.sdk.microgrid._power_distributing._component_managers._battery_manager:BatteryManager"
 ALGO = "frequenz.sdk.microgrid._power_distributing._distribution_algorithm._battery_distribution_algorithm"
@@ -241,5 +243,23 @@ PROPS = {
                      "PVManager.distribute_power's water-filling loop (unrolled over the two inverters) is verified to hand "
                      "_set_api_power allocations with allocations + remainder = request (its precondition, an obligation at "
                      "the call site)"],
+    ),
+    "C10": dict(
+        modules=["actor_lifecycle"],
+        contracts=[f"{ACTM}:Actor._run_loop", f"{ACTM}:Actor.start", f"{BGSM}:BackgroundService.cancel",
+                   f"{BGSM}:BackgroundService.stop"],
+        lemmas=[],
+        bounded=[],
+        level="proof",
+        explanation="_run_loop: loop invariant (one invocation of the run logic per restart, within the limit) with the run logic as "
+                    "a scripted collaborator that may return, raise Exception, be cancelled or raise another BaseException at "
+                    "each invocation; exits re-raise without another invocation exactly as documented. start(): idempotent. "
+                    "cancel(): every task asked to cancel. stop(): every task spawned before the call is finished on return - "
+                    "with interference at awaits (a task may be added while stop() waits): that case is a known finding.",
+        assumptions=[EXTRACTION,
+                     "asyncio task model (create_task / wait / cancel / result) assumed; interference: at most one task added "
+                     "while stop() awaits; up to two tasks in a service initially",
+                     "not under contract: run(*actors), wait() on its own, cancel_and_await, run_forever; 'never runs twice "
+                     "concurrently' rests on start()'s idempotence plus _run_loop awaiting each invocation before the next"],
     ),
 }
